@@ -320,11 +320,16 @@ func canGlue(l, r string) bool {
 	if l == "" || r == "" {
 		return true
 	}
+	lc := l[len(l)-1]
+	rc := r[0]
+	// a token that starts with '$', '@' or '"' starts a new token after anything ($a$b, USD@a, 5"s"),
+	// and so does anything after a closing quote
+	if rc == '$' || rc == '@' || rc == '"' || lc == '"' {
+		return true
+	}
 	if !(safeLeft(l) || safeRight(r)) {
 		return false
 	}
-	lc := l[len(l)-1]
-	rc := r[0]
 	bad := func(c byte) bool { return c == '/' || c == '*' || c == '-' || c == '+' }
 	if bad(lc) || bad(rc) {
 		return false
